@@ -22,6 +22,10 @@ def units(tier, seed):
             for form in ('lit', 'var'):
                 us.append(('pairs', kind, op, form))
     us.append(('neg',))
+    for k in ('i', 'u'):
+        for op1 in OPS:
+            us.append(('trees', k, op1))
+    us.append(('crosstrees',))
     nrand = 8 if tier == 'quick' else 64
     for i in range(nrand):
         us.append(('random', i))
@@ -79,6 +83,83 @@ def run_unit(unit, drv, res, seed, tier):
         res.exhaustive_done["%s-pairs" % k] = True
         res.sample({"src": cases[len(cases) // 2]["src"], "vars": cases[len(cases) // 2].get("vars")})
         # division identity from the *observed* results needs both / and %: done in 'random'
+    elif kind == 'trees':
+        # two operators: (a op1 b) op2 c and a op1 (b op2 c); every operator application is exact or an error,
+        # evaluated left to right with the first error aborting (no widening across a chain, no algebraic short cuts)
+        _, k, op1 = unit
+        small = [0, 1, -1, 2, 3, I64_MAX, I64_MIN, I64_MAX - 1, I64_MIN + 1, 1 << 32, 3037000500] if k == 'i' else [0, 1, 2, 3, U64_MAX, U64_MAX - 1, 1 << 63, 1 << 32, 4294967295]
+        mk = I if k == 'i' else U
+        cases, meta = [], []
+        for op2 in OPS:
+            for a in small:
+                for b in small:
+                    for c in small:
+                        if (a * 7 + b * 13 + c * 31 + len(cases)) % 3:
+                            continue
+                        for shape in ('L', 'R', 'flat'):
+                            va, vb, vc = mk(a), mk(b), mk(c)
+                            if shape == 'L':
+                                src, tree = "(a %s b) %s c" % (op1, op2), ('L',)
+                            elif shape == 'R':
+                                src, tree = "a %s (b %s c)" % (op1, op2), ('R',)
+                            else:
+                                src, tree = "a %s b %s c" % (op1, op2), ('flat',)
+                            cases.append(exec_case(len(cases), src, [("a", va), ("b", vb), ("c", vc)]))
+                            meta.append((shape, op2, va, vb, vc))
+        prec = {'+': 1, '-': 1, '*': 2, '/': 2, '%': 2}
+
+        def ev2(shape, op2, va, vb, vc):
+            try:
+                if shape == 'L' or (shape == 'flat' and prec[op1] >= prec[op2]):
+                    return ('ok', arith(op2, arith(op1, va, vb), vc))
+                # a op1 (b op2 c): operands left to right, so a (a variable) cannot fail; then the inner application
+                return ('ok', arith(op1, va, arith(op2, vb, vc)))
+            except CelError as e:
+                return ('err', e.cls)
+        for part_i in range(0, len(cases), 8000):
+            part = cases[part_i:part_i + 8000]
+            out = drv.run(part, "trees")
+            for c, r, (shape, op2, va, vb, vc) in zip(part, out, meta[part_i:part_i + 8000]):
+                res.evaluations += 1
+                exp = ev2(shape, op2, va, vb, vc)
+                obs = top_outcome(r)
+                res.nt("tree|" + c["src"] + repr((va, vb, vc)))
+                res.count("tree_outcome:" + (obs[1] if obs[0] == 'err' else obs[0]))
+                if not same_outcome(exp, obs):
+                    kindv = mismatch_kind(exp, obs)
+                    res.violation(kindv, "two-operator %s expression" % k, crash_sig(obs) if is_crash(obs) else kindv, c,
+                                  expected=fmt_outcome(exp), observed=fmt_outcome(obs))
+        res.exhaustive_done["%s-trees" % k] = True
+    elif kind == 'crosstrees':
+        # a compound operand of another numeric kind (or one that fails) is still evaluated and still an error
+        from celmodel.refeval import run_once
+        from celmodel.expr import render_min
+        L_ = lambda v: ('lit', v)
+        zeros = [L_(I(0)), L_(U(0)), ('bin', '-', L_(I(5)), L_(I(5))), ('id', 'z'), L_(I(1)), L_(U(1))]
+        inners = [('bin', '+', ('id', 'n'), L_(U(1))), ('bin', '+', L_(U(1)), L_(U(2))), ('bin', '+', L_(D(1.5)), L_(D(1.0))),
+                  ('bin', '+', ('id', 'big'), L_(I(1))), ('bin', '/', L_(U(1)), L_(U(0))), ('bin', '/', L_(I(1)), L_(I(0))),
+                  ('call', 'uint', [L_(I(3))]), ('bin', '*', ('id', 'big'), L_(I(2))), ('call', 'double', [L_(I(1))]),
+                  ('bin', '-', ('id', 'big'), L_(I(1))), ('bin', '%', L_(I(7)), L_(I(0)))]
+        ctx = [("z", I(0)), ("n", U(3)), ("big", I(I64_MAX))]
+        cases, meta = [], []
+        for zexp in zeros:
+            for op in OPS:
+                for inner in inners:
+                    for e in (('bin', op, zexp, inner), ('bin', op, inner, zexp)):
+                        exp, _ = run_once(e, dict(ctx))
+                        cases.append(exec_case(len(cases), render_min(e), ctx))
+                        meta.append(exp)
+        out = drv.run(cases, "crosstrees")
+        for c, r, exp in zip(cases, out, meta):
+            res.evaluations += 1
+            res.nt("ct|" + c["src"])
+            obs = top_outcome(r)
+            res.count("crosstree_outcome:" + (obs[1] if obs[0] == 'err' else obs[0]))
+            if not same_outcome(exp, obs):
+                kindv = mismatch_kind(exp, obs)
+                res.violation(kindv, 'compound operand of another kind or failing', crash_sig(obs) if is_crash(obs) else kindv, c,
+                              expected=fmt_outcome(exp), observed=fmt_outcome(obs))
+        res.exhaustive_done["cross-trees"] = True
     elif kind == 'neg':
         cases, meta = [], []
         for x in I64_BOUNDARY:
